@@ -4,11 +4,13 @@ package checks
 import (
 	"io"
 	"os"
+	"sync"
 
 	"fortio.org/log"
 	"grol.io/grol/eval"
 	"grol.io/grol/extensions"
 	"grol.io/grol/object"
+	"verif/internal/core"
 )
 
 // The extension tables are process globals initialised once; the IO configuration of a
@@ -64,4 +66,24 @@ func registerHarnessExtensions() {
 			}
 			return object.NULL
 		}}))
+}
+
+// observation sink: every implementation evaluation made by a check is recorded (hash only) so that the evidence
+// can state how many distinct behaviours the explored cases exhibited (core.Ctx.Observe).
+var (
+	obsMu  sync.Mutex
+	obsCtx *core.Ctx
+)
+
+func setObs(c *core.Ctx) { obsCtx = c }
+
+func init() { core.OnRun = setObs }
+
+func observe(parts ...string) {
+	if obsCtx == nil {
+		return
+	}
+	obsMu.Lock()
+	obsCtx.Observe(parts...)
+	obsMu.Unlock()
 }
